@@ -320,8 +320,13 @@ impl<T: Config> UdpProtocol<T> {
             return Err(GgrsError::NotSynchronized);
         }
 
+        // the one-second warm-up is counted from the moment the connection is established
+        // (see on_sync_reply); a handshake that is still in progress has produced no data yet
+        if self.state == ProtocolState::Synchronizing {
+            return Err(GgrsError::NotEnoughData);
+        }
         let now = millis_since_epoch();
-        let seconds = (now - self.stats_start_time) / 1000;
+        let seconds = now.saturating_sub(self.stats_start_time) / 1000;
         if seconds == 0 {
             return Err(GgrsError::NotEnoughData);
         }
@@ -690,6 +695,7 @@ impl<T: Config> UdpProtocol<T> {
         } else {
             // switch to running state
             self.state = ProtocolState::Running;
+            self.stats_start_time = millis_since_epoch();
             // register an event
             self.event_queue.push_back(Event::Synchronized);
             // the remote endpoint is now "authorized"
